@@ -236,6 +236,7 @@ func init() {
 			t := a[0].(Agg)
 			return in.C.Sub(in.clock(), in.term(t[1]))
 		},
+		"(*math/big.Int).Mod": xBigMod,
 		"bytes.Index":      xBytesIndex,
 		"bytes.IndexByte":  xBytesIndexByte,
 		"internal/bytealg.IndexByte": xBytesIndexByte,
@@ -686,4 +687,47 @@ func xBytesIndexByte(in *Interp, fn *ssa.Function, a []Value) Value {
 		r = c.Ite(c.Eq(s[i], b), c.Const(64, uint64(i)), r)
 	}
 	return r
+}
+
+// (*math/big.Int).Mod with a symbolic operand: multi-word division is data-dependent code the executor
+// cannot follow; the result is HAVOCKED -- an arbitrary value below the modulus with a non-zero top word
+// (an over-approximation except for results shorter than the modulus, which are not explored).  With
+// concrete operands the real code runs.
+func xBigMod(in *Interp, fn *ssa.Function, a []Value) Value {
+	z, x, m := a[0].(Pointer), a[1].(Pointer), a[2].(Pointer)
+	if z.Obj == nil || x.Obj == nil || m.Obj == nil {
+		return in.callFunction(fn, a, nil)
+	}
+	conc := func(p Pointer) bool {
+		s, ok := p.Obj.Cells[p.Off+1].(Slice)
+		if !ok {
+			return true
+		}
+		for i := 0; i < s.Len; i++ {
+			if t, ok := s.Obj.Cells[s.Off+i].(*smt.Term); ok && !t.IsConst() {
+				return false
+			}
+		}
+		return true
+	}
+	ms, ok := m.Obj.Cells[m.Off+1].(Slice)
+	if (conc(x) && conc(m)) || !ok || ms.Len == 0 {
+		return in.callFunction(fn, a, nil)
+	}
+	n := ms.Len
+	cells := make([]Value, n)
+	hi := make([]*smt.Term, n)
+	mhi := make([]*smt.Term, n)
+	for i := 0; i < n; i++ {
+		w := in.newVar("bigmod", 64)
+		cells[i] = w
+		hi[n-1-i] = w
+		mhi[n-1-i] = in.term(ms.Obj.Cells[ms.Off+i])
+	}
+	in.assume(in.C.Ult(in.C.Concat(hi...), in.C.Concat(mhi...)))
+	in.assume(in.C.Not(in.C.Eq(hi[0], in.C.Const(64, 0))))
+	obj := in.newObject(cells, "bigmod")
+	in.storeAt(z.Obj, z.Off, in.C.False, types.Typ[types.Bool])
+	in.storeAt(z.Obj, z.Off+1, Slice{Obj: obj, Off: 0, Len: n, Cap: n, Stride: 1}, types.NewSlice(types.Typ[types.Uint]))
+	return z
 }
